@@ -121,6 +121,11 @@ type c14cScenario struct {
 	// AutoFlush: whenever a processed request leaves nothing in flight the coordinator's flush timer
 	// fires (the frontier is stored as soon as it can be), at no cost in deviations
 	AutoFlush bool `json:"auto_flush,omitempty"`
+	// Topo: slot-migration steps for the slot of lane 0's key (node 0 -> node 1), applied when the
+	// explorer says so: "M" migrating/importing, "K" the key is moved, "F" finished, "O" abrupt owner
+	// flip. With a topology script a run may end with a REPORTED error (the tool restarts); that is
+	// not a violation (C19), a silent stop still is.
+	Topo []string `json:"topo,omitempty"`
 }
 
 func c14cExec(t *testing.T, scn c14cScenario, ch *mc.Chooser) (rec c14Rec, machinery string) {
@@ -152,6 +157,8 @@ func c14cExec(t *testing.T, scn c14cScenario, ch *mc.Chooser) (rec c14Rec, machi
 		idleLeft := scn.Idle
 		streamDone := false
 		events := 0
+		topo := 0
+		reported := 0
 		preClock := int64(0)
 		if len(scn.Pre) > 0 {
 			p0 := int64(100)
@@ -187,7 +194,7 @@ func c14cExec(t *testing.T, scn c14cScenario, ch *mc.Chooser) (rec c14Rec, machi
 			}
 			preClock = cl.Clock()
 		}
-		for runNo := 0; runNo < scn.MaxCrashes+scn.Idle+2; runNo++ {
+		for runNo := 0; runNo < scn.MaxCrashes+scn.Idle+2+3*len(scn.Topo); runNo++ {
 			rr := c14Run{FirstSeq: int(cl.Clock()) + 1, Idle: streamDone}
 			if runNo > 0 {
 				cl.Revive()
@@ -273,6 +280,19 @@ func c14cExec(t *testing.T, scn c14cScenario, ch *mc.Chooser) (rec c14Rec, machi
 			}
 			crashed = false
 			flushed := false
+			applyTopo := func(st string) {
+				slot := ref.HashSlotS(c14cKeys[0])
+				switch st {
+				case "M":
+					cl.SetMigrating(slot, 1)
+				case "K":
+					cl.MoveKey(slot, c14cKeys[0])
+				case "F":
+					cl.Finish(slot)
+				case "O":
+					cl.SetOwner(slot, 1)
+				}
+			}
 			for guard := 0; guard < 200 && !crashed && !run.ended; guard++ {
 				pk := listParked()
 				type act struct {
@@ -297,6 +317,9 @@ func c14cExec(t *testing.T, scn c14cScenario, ch *mc.Chooser) (rec c14Rec, machi
 				}
 				flushed = false
 				menu = append(menu, act{kind: "flush"})
+				if topo < len(scn.Topo) {
+					menu = append(menu, act{kind: "topo"})
+				}
 				if softLeft > 0 {
 					menu = append(menu, act{kind: "softstop"})
 				}
@@ -318,6 +341,11 @@ func c14cExec(t *testing.T, scn c14cScenario, ch *mc.Chooser) (rec c14Rec, machi
 					it := items[pos]
 					pos++
 					crashed = doEvent(func() { run.feed(it.Raw) })
+				case "topo":
+					st := scn.Topo[topo]
+					topo++
+					applyTopo(st)
+					run.wait()
 				case "flush":
 					crashed = doEvent(func() { time.Sleep(150 * time.Millisecond); vtime.Fire("frontier"); run.wait() })
 				case "softstop":
@@ -347,6 +375,13 @@ func c14cExec(t *testing.T, scn c14cScenario, ch *mc.Chooser) (rec c14Rec, machi
 			}
 			rr.Completed = !crashed && !early && pos == len(items)
 			rec.Runs = append(rec.Runs, rr)
+			if early && !crashed && len(scn.Topo) > 0 && run.err != nil {
+				// a reported stop during a topology change: the tool restarts
+				reported++
+				if reported <= 3 {
+					continue
+				}
+			}
 			if early && !crashed {
 				v := mc.Violation("replay stopped although the target is healthy", "C14:send-returned:cluster-"+scn.Cfg.Mode, map[string]interface{}{"error": rr.SendErr, "run": runNo})
 				rec.Early = &v
@@ -394,4 +429,80 @@ func sortByExecSeq(l []*redisd.Req) {
 			l[j], l[j-1] = l[j-1], l[j]
 		}
 	}
+}
+
+// oracleC19Bi judges a bidirectional replay into the cluster while a slot migrates by C19's
+// clauses only: per key the executed writes never skip or invert (a restart may repeat a
+// suffix), every business command runs inside a transaction together with its marker, nothing
+// is lost once a run has consumed the whole stream, a stop is reported, and within one run no
+// unit is committed twice.
+func oracleC19Bi(scn c14cScenario, rec *c14Rec) mc.Result {
+	mode := "bisync-" + scn.Cfg.Mode
+	describe := func() map[string]interface{} {
+		return map[string]interface{}{"runs": rec.Runs, "target_log": maskedLog(rec.Exec), "topology": scn.Topo}
+	}
+	if rec.Early != nil {
+		r := *rec.Early
+		r.Sig = strings.Replace(r.Sig, "C14:", "C19:bisync:", 1)
+		r.Detail = map[string]interface{}{"detail": r.Detail, "history": describe()}
+		return r
+	}
+	// source writes per key, in order
+	src := map[string][]string{}
+	for i, l := range scn.Lanes {
+		k := c14cKeys[l]
+		src[k] = append(src[k], fmt.Sprintf("v%d", i))
+	}
+	last := map[string]int{}
+	type seen struct{ run, n int }
+	perRun := map[string]map[int]int{}
+	runOf := func(seq int) int {
+		r := 0
+		for i, rr := range rec.Runs {
+			if seq >= rr.FirstSeq {
+				r = i
+			}
+		}
+		return r
+	}
+	for _, r := range rec.Exec {
+		if r.Name() != "set" || len(r.Argv) != 3 || isBisyncKey(r.Argv[1]) {
+			continue
+		}
+		k, v := string(r.Argv[1]), string(r.Argv[2])
+		p := -1
+		for i, sv := range src[k] {
+			if sv == v {
+				p = i + 1
+			}
+		}
+		if p < 0 {
+			return mc.Violation("the cluster executed a write that is not in the source stream", "C19:bisync:invented:"+mode, map[string]interface{}{"command": r.String(), "history": describe()})
+		}
+		if r.Txn == 0 {
+			return mc.Violation("a unit's command was executed outside a MULTI/EXEC", "C19:bisync:not-atomic:"+mode, map[string]interface{}{"command": r.String(), "history": describe()})
+		}
+		if p > last[k]+1 {
+			return mc.Violation("per-key order broken: a write took effect before an earlier write of the same key", "C19:bisync:key-order:"+mode, map[string]interface{}{"key": k, "value": v, "history": describe()})
+		}
+		last[k] = p
+		ru := runOf(r.Seq)
+		if perRun[k+"="+v] == nil {
+			perRun[k+"="+v] = map[int]int{}
+		}
+		perRun[k+"="+v][ru]++
+		if perRun[k+"="+v][ru] > 1 && scn.Cfg.Mode == "sync" {
+			return mc.Violation("a unit was committed twice within one run", "C19:bisync:repeat-in-run:"+mode, map[string]interface{}{"write": k + "=" + v, "run": ru, "history": describe()})
+		}
+	}
+	fin := rec.Runs[len(rec.Runs)-1]
+	if fin.Completed {
+		for k, vs := range src {
+			if last[k] != len(vs) {
+				return mc.Violation("a write was lost: the stream was consumed, yet the key's last executed write is not the source's last", "C19:bisync:lost:"+mode, map[string]interface{}{"key": k, "history": describe()})
+			}
+		}
+	}
+	parts := maskedLog(rec.Exec)
+	return mc.OK(mc.Hash(parts...), len(rec.Exec) > 0, rec.Events)
 }
